@@ -3,6 +3,8 @@ package main
 // C02 attacker toolkit: envelopes built by hand from primitives, as an outsider or a misbehaving co-recipient would.
 
 import (
+	"sort"
+	"crypto/sha256"
 	"crypto/aes"
 	"crypto/cipher"
 	"encoding/base64"
@@ -151,6 +153,69 @@ func envForgeMallory(c envCase, parties []*envParty) ([]byte, bool) {
 		return nil, false
 	}
 	return []byte(s), true
+}
+
+// envForgeApuMallory: the outsider seals a MULTI-recipient ECDH-1PU envelope by hand with ITS OWN key pair: `apu` names
+// its own key (the key the key wrapping really used), `skid` names the sender. Whichever of the two headers a recipient
+// authenticates the envelope with is the one it must attribute the envelope to.
+func envForgeApuMallory(c envCase, parties []*envParty) ([]byte, bool) {
+	if c.kind != "aj" || c.nrec < 2 || c.enc != "xc" || len(parties) < 4 {
+		return nil, false
+	}
+	mallory := parties[len(parties)-1]
+	khi, err := mallory.kms.Get(mallory.kid)
+	if err != nil {
+		return nil, false
+	}
+	malloryKID, skid := mallory.didKey, parties[0].didKey
+	if c.kidstyle == "dd" {
+		malloryKID, skid = mallory.kaID, parties[0].kaID
+	}
+	var recs []*cryptoapi.PublicKey
+	var kids []string
+	for _, p := range parties[1 : 1+c.nrec] {
+		r := *p.pubKey
+		r.KID = p.didKey
+		if c.kidstyle == "dd" {
+			r.KID = p.kaID
+		}
+		recs = append(recs, &r)
+		kids = append(kids, r.KID)
+	}
+	sort.Strings(kids)
+	apvRaw := sha256.Sum256([]byte(strings.Join(kids, ".")))
+	prot := map[string]interface{}{"typ": "application/didcomm-encrypted+json", "cty": "application/didcomm-plain+json",
+		"enc": "XC20P", "skid": skid, "apu": b64u([]byte(malloryKID)), "apv": b64u(apvRaw[:])}
+	pb, _ := json.Marshal(prot)
+	p64 := b64u(pb)
+	cek := make([]byte, 32)
+	for i := range cek {
+		cek[i] = byte(i*11 + 3)
+	}
+	nonce, ct, tag, ok := handSeal("xc", cek, []byte(`{"forged":"by the outsider, multi-recipient"}`), []byte(p64))
+	if !ok {
+		return nil, false
+	}
+	var recJSON []interface{}
+	for _, r := range recs {
+		opts := []cryptoapi.WrapKeyOpts{cryptoapi.WithSender(khi), cryptoapi.WithTag(tag)}
+		if c.kt == "x25519" {
+			opts = append(opts, cryptoapi.WithXC20PKW())
+		}
+		// (the recipient feeds the header TEXTS of apu / apv into the KDF)
+		wk, err := envCrypto.WrapKey(cek, []byte(b64u([]byte(malloryKID))), []byte(b64u(apvRaw[:])), r, opts...)
+		if err != nil || !strings.HasPrefix(wk.Alg, "ECDH-1PU") {
+			return nil, false
+		}
+		recJSON = append(recJSON, map[string]interface{}{"header": map[string]interface{}{"alg": wk.Alg, "kid": r.KID,
+			"epk": epkJSON(&wk.EPK)}, "encrypted_key": b64u(wk.EncryptedCEK)})
+	}
+	out, err := json.Marshal(map[string]interface{}{"protected": p64, "recipients": recJSON, "iv": b64u(nonce),
+		"ciphertext": b64u(ct), "tag": b64u(tag)})
+	if err != nil {
+		return nil, false
+	}
+	return out, true
 }
 
 // envCoRecipient: recipient 2 of a genuine multi-recipient envelope recovers the CEK with its own key and re-encrypts
